@@ -93,22 +93,29 @@ class CliRun:
         dbp = os.path.join(self.base, "db.json")
         with open(dbp, "w") as fh:
             json.dump({w: [x.hex() for x in ids] for w, ids in db.items()}, fh)
+        # the outcome of a command is what it DID (the alias resolves, the flag it is there to set is newly set), not how
+        # commands.py words its message
+        def flag(name):
+            return bool(self.ev and self.ev[-1]["o"].get(name))
         out, _ = self.call(cmd.create_service, cfgp, "svc")
-        ok = "successfully" in out
-        if ok:
-            try:
-                self.sid = self.snh.get_service_id_by_sname("svc")
-            except Exception:
-                ok = False
+        try:
+            self.sid = self.snh.get_service_id_by_sname("svc")
+            ok = bool(self.sid) and os.path.isdir(os.path.join(self.w.cdir, self.sid))
+        except Exception:
+            ok = False
         self.observe("create", "ok" if ok else "refused", raw=out)
-        out, _ = self.call(cmd.generate_key, sname="svc")
-        self.observe("genkey", "ok" if "successfully" in out else "refused", raw=out)
-        out, _ = self.call(cmd.encrypt_database, dbp, sname="svc")
-        self.observe("encrypt", "ok" if "successfully" in out else "refused", raw=out)
-        out = await self.acall(cmd.upload_config, sname="svc")
-        self.observe("upconfig", "ok" if "successfully" in out else "refused", raw=out)
-        out = await self.acall(cmd.upload_encrypted_database, sname="svc")
-        self.observe("upindex", "ok" if "successfully" in out else "refused", raw=out)
+        for op, fl, fn, args in (("genkey", "kc", cmd.generate_key, ()), ("encrypt", "de", cmd.encrypt_database, (dbp,))):
+            before = flag(fl)
+            out, _ = self.call(fn, *args, sname="svc")
+            self.observe(op, "refused", raw=out)
+            if flag(fl) and not before:
+                self.ev[-1]["out"] = "ok"
+        for op, fl, fn in (("upconfig", "cu", cmd.upload_config), ("upindex", "du", cmd.upload_encrypted_database)):
+            before = flag(fl)
+            out = await self.acall(fn, sname="svc")
+            self.observe(op, "refused", raw=out)
+            if flag(fl) and not before:
+                self.ev[-1]["out"] = "ok"
         if self.k % 3 == 0:
             await self.w.restart_server()
             self.observe("restart", "ok")
@@ -117,13 +124,14 @@ class CliRun:
             exp = expected(db.get(kw, []), fmt)
             out = await self.acall(cmd.search, kw, fmt, sid=self.sid if i % 2 else "", sname="" if i % 2 else "svc")
             got, good = None, False
-            marker = ">>> The result is "
-            if marker in out:
-                txt = out[out.index(marker) + len(marker):].strip()
-                txt = txt[:-1] if txt.endswith(".") else txt
+            # the result is the list literal the command prints (whatever words surround it)
+            i, j = out.find("["), out.rfind("]")
+            if 0 <= i < j:
                 try:
-                    got = ast.literal_eval(txt)
+                    got = ast.literal_eval(out[i:j + 1])
                 except Exception:
+                    got = None
+                if not isinstance(got, (list, tuple)):
                     got = None
                 if got is not None:
                     good = (sorted(map(repr, got)) == sorted(map(repr, exp))) if self.scheme in sc.SET_RESULT else (list(got) == exp)
